@@ -39,21 +39,15 @@ def getOptStr (j : Json) : Except String (Option Str) :=
   | .null => pure none
   | _ => do let s ← j.getStr?; pure (some s.toList)
 
-/-- a directive line the loader turns into a specification must be a text cell (assumption of C16/C18) -/
-def checkDirectiveLines (rows : List Row) : Except String Unit :=
-  (segment rows).forM fun b =>
-    if b.ty = .directive then
-      b.rows.forM fun r => match r with
-        | .str _ :: _ => pure ()
-        | _ => throw "directive row whose first cell is not text: outside the modelled domain"
-    else pure ()
-
 def sheetOfJson (j : Json) : Except String Sheet := do
   let name ← getOptStr (← j.getObjVal? "name")
   let use ← getBool j "use"
   let rows ← rowsOfJson (← j.getObjVal? "rows")
-  checkDirectiveLines rows
-  pure (Sheet.ofRows name use rows)
+  -- origin rows of the tables whose handler raises ValueError (observed by the harness with the real parser)
+  let bad ← match j.getObjVal? "bad_rows" with
+    | .ok v => do let a ← v.getArr?; a.toList.mapM (·.getNat?)
+    | .error _ => pure []
+  pure (Sheet.ofRowsBad name use rows bad)
 
 def nodeOfJson (j : Json) : Except String (Loc × Node) := do
   let loc ← getNat j "loc"
@@ -137,6 +131,7 @@ def outToJson (o : Out) : Json :=
 def issueToJson : Issue → Json
   | .dup l it => arr ["dup", nat l, str it.spec, optNat it.srcLoc]
   | .resolveFail it => arr ["resolve", str it.spec, optNat it.srcLoc]
+  | .parse l sh r => arr ["parse", nat l, optStr sh, nat r]
 
 def statusToJson : Status → Json
   | .running => "running"
@@ -194,7 +189,7 @@ def originOfJson (j : Json) : Except String Out := do
   let sheet ← getOptStr (← j.getObjVal? "sheet")
   let row ← getNat j "row"
   let item ← itemOfHistory (← getArr j "history")
-  pure ⟨loc, sheet, ⟨.table, row, [], []⟩, item⟩
+  pure ⟨loc, sheet, ⟨.table, row, [], [], false⟩, item⟩
 
 def keyToJson (k : Key) : Json :=
   arr [nat k.loc, match k.pos with
@@ -223,13 +218,22 @@ def handleLoad (op : String) (j : Json) : Option (Except String Json) :=
     let cfg ← cfgOfJson j
     let roots ← (← getArr j "roots").mapM fun r => do pure (← r.getStr?).toList
     checkTable w tab cfg.allowInclude roots
-    let (st, status) := loadFiles w cfg roots
+    -- make_loader's argument check: [file_name_pattern given, file_name_start_pattern given]
+    let argsOk ← match j.getObjVal? "pattern_args" with
+      | .ok v => do
+        let a ← v.getArr?
+        match a.toList with
+        | [p, q] => do pure (loaderArgsOk (← p.getBool?) (← q.getBool?))
+        | _ => throw "bad pattern_args"
+      | .error _ => pure true
+    let (st, status) := if argsOk then loadFiles w cfg roots
+      else (⟨roots.map Item.root, [], [], []⟩, Status.raised Exc.valueError)
     pure (Json.mkObj [("status", statusToJson status),
                       ("out", arr (st.out.map outToJson)),
                       ("visited", arr (st.visited.map nat)),
                       ("issues", arr (st.issues.map issueToJson)),
                       ("pending", nat st.stack.length),
-                      ("fuel", nat (fuelBound w cfg.allowInclude roots))])
+                      ("fuel", nat (fuelBound w cfg.raising cfg.allowInclude roots))])
   | "dispatch" => some do
     let add ← (← getArr j "additional").mapM fun e => do
       let x ← e.getArr?
